@@ -121,3 +121,58 @@ impl<W: Write> crate::Output for Output<W> {
 		self.0.flush()
 	}
 }
+
+/// Verification hooks (see `crate::verif`).
+#[cfg(feature = "verif")]
+pub(crate) mod verif {
+	use std::io::{self, BufRead, Read};
+
+	use super::chunker::{self, Chunker};
+	use super::encoding::{Encoder, Encoding};
+
+	fn encoding_name(encoding: &Encoding) -> &'static str {
+		match encoding {
+			Encoding::Utf8 => "utf8",
+			Encoding::Utf16Big => "utf16be",
+			Encoding::Utf32Big => "utf32be",
+			Encoding::Utf16Little => "utf16le",
+			Encoding::Utf32Little => "utf32le",
+		}
+	}
+
+	pub(crate) fn detect_encoding(prefix: &[u8]) -> &'static str {
+		encoding_name(&Encoding::detect(prefix))
+	}
+
+	pub(crate) fn reencode<'r, R: BufRead + 'r>(reader: R) -> io::Result<Box<dyn Read + 'r>> {
+		Ok(Box::new(Encoder::from_reader(reader)?))
+	}
+
+	pub(crate) fn reencode_from<'r, R: BufRead + 'r>(reader: R, encoding: &str) -> Box<dyn Read + 'r> {
+		let encoding = match encoding {
+			"utf16be" => Encoding::Utf16Big,
+			"utf32be" => Encoding::Utf32Big,
+			"utf16le" => Encoding::Utf16Little,
+			"utf32le" => Encoding::Utf32Little,
+			_ => Encoding::Utf8,
+		};
+		Box::new(Encoder::new(reader, encoding))
+	}
+
+	pub(crate) fn chunks<R: Read>(reader: R, max_docs: usize) -> Vec<io::Result<(String, bool)>> {
+		// Like xt itself, never poll the chunker again after an error.
+		let mut results = vec![];
+		for doc in Chunker::new(reader).take(max_docs) {
+			let failed = doc.is_err();
+			results.push(doc.map(|doc| (doc.content().to_owned(), doc.is_collection())));
+			if failed {
+				break;
+			}
+		}
+		results
+	}
+
+	pub(crate) fn events<R: Read>(reader: R, max_events: usize) -> io::Result<usize> {
+		chunker::verif_events(reader, max_events)
+	}
+}
